@@ -46,6 +46,10 @@ type lockState struct {
 	readers map[int]int
 }
 
+// StepTimeout bounds the time a resumed thread may take to reach its next scheduling point (it only fires when
+// the code under test blocks on something the scheduler does not own).
+var StepTimeout = 20 * time.Second
+
 // S is one scheduler instance (one execution).
 type S struct {
 	c        *vf.Chooser
@@ -272,7 +276,7 @@ func (s *S) Run(bodies []func()) {
 		s.running = t.id
 		t.resume <- struct{}{}
 		if s.timer == nil {
-			s.timer = time.NewTimer(60 * time.Second)
+			s.timer = time.NewTimer(StepTimeout)
 		} else {
 			if !s.timer.Stop() {
 				select {
@@ -280,12 +284,12 @@ func (s *S) Run(bodies []func()) {
 				default:
 				}
 			}
-			s.timer.Reset(60 * time.Second)
+			s.timer.Reset(StepTimeout)
 		}
 		select {
 		case <-s.events:
 		case <-s.timer.C:
-			s.Timeout = fmt.Sprintf("thread %d did not reach its next scheduling point within 60 s after %s (uncontrolled blocking)", t.id, s.Trace[len(s.Trace)-1])
+			s.Timeout = fmt.Sprintf("thread %d did not reach its next scheduling point within the step timeout after %s (uncontrolled blocking)", t.id, s.Trace[len(s.Trace)-1])
 			return
 		}
 		if t.done {
